@@ -231,6 +231,10 @@ class IterativeTighteningSearch(Bounded, Generic[B]):
                     if node.deleted:
                         continue
                     tightened = node.item.tighten_bounds()
+                    if not tightened and node.item.bounds().definitive():
+                        # an item may report no progress from the very call that collapsed its bounds;
+                        # it still has to be moved to the tightened heap
+                        tightened = True
                     if tightened:
                         self._update_bounds(node)
                         break
